@@ -81,8 +81,9 @@ def run(ctx):
             if not rest:
                 cov = con_
         ctx.ob("C08.newer-only", f"{LTE.split('flexstack.')[-1]}.update_position_vector", f"stores-when:{name}", cov is not None,
-               f"a {name} entry " + ("takes the received position vector" if cov else
-                                     "does not take the received position vector (no store is reached under that condition alone)"),
+               ("a never-filled entry takes the first received position vector" if idx == 1 else
+                "a filled entry takes every strictly newer position vector") if cov else
+               f"no store of the received position vector is reached under the condition `{name}` alone",
                P.func(f"{LTE}.update_position_vector").loc)
     ctx.floor("C08.newer-only", 3, "PV stores + coverage")
 
@@ -224,15 +225,17 @@ def run(ctx):
     pred_fns = []
     for m in lt.methods.values():
         for nn in ast.walk(m.node):
-            if isinstance(nn, ast.Compare) and "itsGnLifetimeLocTE" in unparse(nn):
+            if isinstance(nn, ast.Compare) and any(isinstance(x, ast.Attribute) and x.attr == "itsGnLifetimeLocTE" for x in ast.walk(nn)):
                 pred_fns.append((m, nn))
     if not pred_fns:
         raise AnalysisError("C08: no comparison against itsGnLifetimeLocTE found in LocationTable (expiry predicate vanished)")
     rt = P.func(f"{LT}.refresh_table")
     pred_names = {m.name for m, _ in pred_fns}
-    uses = pred_names & ({rt.name} | {c.func.attr for c in P.calls_in(rt) if isinstance(c.func, ast.Attribute)})
-    ctx.ob("C08.expiry", rt.short(), "filters-by-predicate", bool(uses),
-           f"refresh_table filters the table by the lifetime predicate ({sorted(pred_names)})", rt.loc)
+    preds = {m.name: m for m, _ in pred_fns}
+    ok_f, why_f = _refresh_filters(ctx, P, rt, preds)
+    ctx.ob("C08.expiry", rt.short(), "filters-by-predicate", ok_f,
+           f"refresh_table filters the table by the lifetime predicate ({sorted(pred_names)})" if ok_f else
+           f"refresh_table does not keep exactly the entries for which the lifetime predicate holds: {why_f}", rt.loc)
     for m, cmp_ in pred_fns:
         fl = ctx.flows.get(m)
         st = fl.state_at(cmp_)
@@ -298,28 +301,43 @@ def run(ctx):
                 ctx.ob("C08.expiry", m.short(), "difference-operands", False,
                        f"`{pretty(unparse(subs[0]))}` is not a difference of two TST values", loc)
         # clock resolution: every value passed as `now` has millisecond resolution (or the ahead guard makes truncation harmless)
-        clock_srcs = []
+        resolved = []
+        clock_nodes = []
         if now_name in m.params:
             for caller, call in P.callers_of(m):
                 cfl = ctx.flows.get(caller)
-                idx = m.params.index(now_name) - 1
-                arg = call.args[idx] if idx < len(call.args) else None
+                arg = (G.bind_args(m, call) or {}).get(now_name)
                 if arg is not None:
-                    clock_srcs.append(norm(pretty(unparse(cfl.expand(arg, cfl.state_at(call))))))
+                    clock_nodes.append((caller, cfl.expand(arg, cfl.state_at(call))))
         else:
-            clock_srcs.append(now_name)
-        resolved = []
-        for cs_ in clock_srcs:
-            mm = re.fullmatch(r"self\.(\w+)\(\)", cs_)
-            if mm and mm.group(1) in lt.methods:
-                f2 = lt.methods[mm.group(1)]
-                fl2 = ctx.flows.get(f2)
+            clock_nodes.append((m, now_x))
+        final_nodes = []
+        for owner, node in clock_nodes:
+            # a clock helper of the table (`self._now()` / `LocationTable._now()`): look at what it returns
+            tgt = None
+            if isinstance(node, ast.Call) and isinstance(node.func, ast.Attribute) and not node.args and node.func.attr in lt.methods \
+                    and sem.cx(node.func.value) in ("self", lt.name):
+                tgt = lt.methods[node.func.attr]
+            if tgt is not None:
+                fl2 = ctx.flows.get(tgt)
                 for k, s2, st2 in fl2.exits:
-                    if k == "return":
-                        resolved.append(norm(pretty(unparse(fl2.expand(s2.value, st2)))))
+                    if k == "return" and s2.value is not None:
+                        final_nodes.append((tgt, fl2.expand(s2.value, st2)))
             else:
-                resolved.append(cs_)
-        ms = bool(resolved) and all("set_in_normal_timestamp_milliseconds(" in r and "*1000" in r for r in resolved)
+                final_nodes.append((owner, node))
+        ms_want = to_poly(P, lt.module, ast.parse("int(TimeService.time() * 1000)", mode="eval").body)
+        ms_want2 = to_poly(P, lt.module, ast.parse("TimeService.time() * 1000", mode="eval").body)
+
+        def _ms_clock(owner, node):
+            if not (isinstance(node, ast.Call) and isinstance(node.func, ast.Attribute) and len(node.args) == 1 and not node.keywords):
+                return False
+            r = P.resolve_expr_entity(owner.module, node.func)
+            if not (isinstance(r, FuncInfo) and r.cls is tst and r.name == "set_in_normal_timestamp_milliseconds"):
+                return False
+            got = to_poly(P, owner.module, node.args[0])
+            return got == ms_want or got == ms_want2
+        resolved = [norm(pretty(unparse(nd))) for _, nd in final_nodes]
+        ms = bool(final_nodes) and all(_ms_clock(o, nd) for o, nd in final_nodes)
         ctx.ob("C08.expiry", m.short(), "clock-resolution", ms or ahead,
                "the expiry clock " + ("has millisecond resolution" if ms else
                                       "is truncated to whole seconds while PV timestamps have millisecond resolution"
@@ -329,12 +347,118 @@ def run(ctx):
     # ---- purge on read
     for name in ("get_entry", "get_neighbours"):
         f = P.func(f"{LT}.{name}")
-        called = {c.func.attr for c in P.calls_in(f) if isinstance(c.func, ast.Attribute)}
-        ok = bool(called & (pred_names | {"refresh_table"})) or name in pred_names
+        ok, why = (True, "contains the predicate") if name in pred_names else _answers_only_alive(ctx, P, f, preds)
         ctx.ob("C08.purge-on-read", f.short(), "applies-expiry", ok,
                f"{name} " + ("applies the expiry predicate before answering" if ok else
-                             "returns entries without applying the expiry predicate: an expired station stays visible (and a "
+                             f"returns entries without applying the expiry predicate ({why}): an expired station stays visible (and a "
                              "neighbour) until the next reception triggers refresh_table"), f.loc)
+
+
+def _disjuncts(node: ast.AST, pol: bool) -> list:
+    """(node, polarity) members of the disjunction a fact stands for."""
+    if isinstance(node, ast.UnaryOp) and isinstance(node.op, ast.Not):
+        return _disjuncts(node.operand, not pol)
+    if isinstance(node, ast.BoolOp) and ((isinstance(node.op, ast.And) and not pol) or (isinstance(node.op, ast.Or) and pol)):
+        out = []
+        for v in node.values:
+            out += _disjuncts(v, pol)
+        return out
+    return [(node, pol)]
+
+
+def _is_pred_call(e: ast.AST, preds: dict, entry_cx: str) -> bool:
+    """e == self.<expiry predicate>(<entry>, ...) for the entry `entry_cx`."""
+    if not (isinstance(e, ast.Call) and isinstance(e.func, ast.Attribute) and sem.cx(e.func.value) == "self"):
+        return False
+    m = preds.get(e.func.attr)
+    if m is None or len(m.params) < 2:
+        return False
+    amap = G.bind_args(m, e) or {}
+    return m.params[1] in amap and sem.cx(amap[m.params[1]]) == entry_cx
+
+
+def _kept_alive(facts, preds: dict, entry_cx: str, entry_node: ast.AST, allow_none: bool) -> bool:
+    """Some guard fact states: the predicate holds for the entry (or, when allowed, there is no entry)."""
+    none_atoms = sem.atoms(ast.Compare(left=entry_node, ops=[ast.Is()], comparators=[ast.Constant(None)]), True)
+    for f in facts:
+        if f.kind != "cond":
+            continue
+        kinds = []
+        for n, p in _disjuncts(f.xnode, f.pol):
+            if p and _is_pred_call(n, preds, entry_cx):
+                kinds.append("alive")
+            elif allow_none and sem.atoms(n, p) == none_atoms:
+                kinds.append("none")
+            else:
+                kinds.append("?")
+        if "alive" in kinds and "?" not in kinds:
+            return True
+    return False
+
+
+def _refresh_filters(ctx, P, rt: FuncInfo, preds: dict) -> tuple:
+    """refresh_table re-binds the table to {k: v for k, v in <table>.items() if <predicate>(v, now)}."""
+    fl = ctx.flows.get(rt)
+    stores = [n for n in ast.walk(rt.node) if isinstance(n, ast.Assign) and len(n.targets) == 1
+              and isinstance(n.targets[0], ast.Attribute) and sem.cx(n.targets[0].value) == "self" and n.targets[0].attr == "loc_t"]
+    if len(stores) != 1:
+        return False, f"{len(stores)} re-bindings of the table"
+    dc = stores[0].value
+    if not (isinstance(dc, ast.DictComp) and len(dc.generators) == 1):
+        return False, "the table is not rebuilt by one dict comprehension"
+    g = dc.generators[0]
+    if not (isinstance(g.iter, ast.Call) and isinstance(g.iter.func, ast.Attribute) and g.iter.func.attr == "items"
+            and sem.cx(g.iter.func.value) == "self.loc_t" and isinstance(g.target, ast.Tuple) and len(g.target.elts) == 2
+            and all(isinstance(e, ast.Name) for e in g.target.elts)):
+        return False, "the comprehension does not iterate over the table's items"
+    k, v = g.target.elts
+    if not (isinstance(dc.key, ast.Name) and dc.key.id == k.id and isinstance(dc.value, ast.Name) and dc.value.id == v.id):
+        return False, "keys / entries are not carried over unchanged"
+    if len(g.ifs) != 1:
+        return False, f"{len(g.ifs)} filter conditions"
+    cond = g.ifs[0]
+    if rt.name in preds and any(isinstance(x, ast.Attribute) and x.attr == "itsGnLifetimeLocTE" for x in ast.walk(cond)):
+        return True, ""
+    dj = _disjuncts(cond, True)
+    if len(dj) == 1 and dj[0][1] and _is_pred_call(dj[0][0], preds, v.id):
+        return True, ""
+    return False, f"the filter `{unparse(cond)[:60]}` is not the lifetime predicate of the iterated entry"
+
+
+def _answers_only_alive(ctx, P, f: FuncInfo, preds: dict) -> tuple:
+    """Every entry a reader hands out satisfied the expiry predicate (get_entry: or there is no entry)."""
+    fl = ctx.flows.get(f)
+    n = 0
+    for k, s, st in fl.exits:
+        if k != "return" or s.value is None:
+            continue
+        if isinstance(s.value, ast.ListComp):
+            elt = s.value.elt
+            est = fl.state_at(elt)
+            n += 1
+            if not _kept_alive(est.facts, preds, sem.cx(elt), elt, False):
+                return False, "list elements are not filtered by the predicate"
+            continue
+        for alt in fl.alternatives(s.value, st):
+            if isinstance(alt, ast.Constant) and alt.value is None:
+                continue
+            if isinstance(alt, ast.Call) and isinstance(alt.func, ast.Attribute) and alt.func.attr in ("get", "pop") \
+                    and sem.cx(alt.func.value) == "self.loc_t":
+                n += 1
+                if not _kept_alive(st.facts, preds, sem.cx(alt), alt, True):
+                    return False, f"`{pretty(unparse(alt))[:50]}` is returned without the predicate"
+    # entries collected into a result list
+    for c in P.calls_in(f):
+        if isinstance(c.func, ast.Attribute) and c.func.attr in ("append", "add") and len(c.args) == 1 and \
+                isinstance(c.func.value, ast.Name):
+            cst = fl.state_at(c)
+            x = fl.expand(c.args[0], cst)
+            n += 1
+            if not _kept_alive(cst.facts, preds, sem.cx(x), x, False):
+                return False, f"`{pretty(unparse(x))[:50]}` is collected without the predicate"
+    if n == 0:
+        return False, "no answered entry recognised"
+    return True, ""
 
 
 def _entry_roots(P, fi: FuncInfo, depth: int = 6) -> set:
